@@ -254,6 +254,19 @@ func structEdits(b *Built, f *refxz.File, r *sim.Rng) []structEdit {
 					add("dictionary-byte", fmt.Sprintf("%s byte %d", btag, db), img)
 				}
 			}
+			// reserved bits in the control byte of the end chunk or of an
+			// uncompressed chunk (0x03-0x7f are invalid control bytes)
+			for ci, ch := range bl.Chunks {
+				if ch.Kind != "end" && ch.Kind[0] != 'U' {
+					continue
+				}
+				if ci != 0 && ci != len(bl.Chunks)-1 && r.Chance(2, 3) {
+					continue
+				}
+				img := clone()
+				img[bl.DataOffset+ch.Offset] |= byte(4 << uint(r.Intn(5)))
+				add("chunk-control-reserved-bits", fmt.Sprintf("%s chunk %d (%s) control byte %#x", btag, ci, ch.Kind, img[bl.DataOffset+ch.Offset]), img)
+			}
 			// the compressed-size field of an LZMA2 chunk header (no CRC covers it;
 			// the decoder knows where the chunk's data ends): too large, too small
 			for ci, ch := range bl.Chunks {
